@@ -117,7 +117,7 @@ func (index *BinaryIndex) SourcePackage() string {
 // process but most not be used directly. Use the Checksums() accessor instead.
 type BestChecksums struct {
 	ChecksumsSha256 []SHA256FileHash `control:"Checksums-Sha256" delim:"\n" strip:"\n\r\t "`
-	ChecksumsSha512 []SHA256FileHash `control:"Checksums-Sha512" delim:"\n" strip:"\n\r\t "`
+	ChecksumsSha512 []SHA512FileHash `control:"Checksums-Sha512" delim:"\n" strip:"\n\r\t "`
 }
 
 // Checksums returns FileHashes of a cryptographically secure kind.
